@@ -444,7 +444,7 @@ def _scalar_of(t):
     """z3 Real for the value of a 0-d tensor (opaque values get a stable fresh constant with ghost facts)"""
     if 'scalar' in t.ghost:
         return t.ghost['scalar']
-    if t._val is not None:
+    if t._val is not None and t.cost <= 40:
         v = t.at([])
         if v.is_simple():
             return v.simple_expr()
@@ -677,7 +677,7 @@ def truth_sym(ex, v):
             if a is not None and b is not None:
                 return {'Eq': a == b, 'NotEq': a != b, 'Lt': a < b, 'LtE': a <= b, 'Gt': a > b, 'GtE': a >= b}[opn]
             return fresh_bool('tensorcmp')
-        if v._val is not None:
+        if v._val is not None and v.cost <= 40:
             x = v.at([(0,) * len(a.factors) for a in v.axes])
             if x.is_simple():
                 return x.simple_expr() != 0
@@ -697,7 +697,7 @@ def _elem_scalar(x):
     if isinstance(x, STensor):
         if T.numel(x) != 1 and not is_sym(T.numel(x)):
             return None
-        if x._val is not None:
+        if x._val is not None and x.cost <= 40:
             t = x.at([(0,) * len(a.factors) for a in x.axes])
             if t.is_simple():
                 return t.simple_expr()
